@@ -716,6 +716,7 @@ def run_check(pid, tier, seed, assumptions):
                 w += 2 if o["cheat"] else 0
                 w += 2 if len(o.get("ins", [])) != len(o.get("outs", [])) else 0
                 w += 1 if o.get("layout", "plain") != "plain" else 0
+                w += 2 if o.get("layout", "plain") != "plain" and sum(1 for x in o.get("ins", []) if x > 0) >= 2 else 0
                 # after the expiry only one side's transactions confirm: the races for contended outputs
                 w += 3 if (s["mode"] == "honest" and o["h"] >= 14 and len(o["who"]) == 1) else 0
             elif o["op"] == "unwind":
@@ -735,7 +736,8 @@ def run_check(pid, tier, seed, assumptions):
         got = vlib.tlc_printed(r["out"], "SCRIPT")
         if not any(o["op"] == "block" and o["cheat"] for s in got for o in s["ops"]) and pid == "C06":
             raise vlib.ToolError("vacuity: the model's cheater never confirmed a second-stage transaction")
-        if cfg.startswith("OnChainMCs") and not any(o["op"] == "block" and len(o["ins"]) != len(o["outs"]) for s in got for o in s["ops"]):
+        if cfg.startswith("OnChainMCs") and not (any(o["op"] == "block" and len(o["ins"]) != len(o["outs"]) for s in got for o in s["ops"])
+                                                 and any(o["op"] == "block" and o["layout"] == "fee_between" for s in got for o in s["ops"])):
             raise vlib.ToolError("vacuity: no second-stage transaction with different numbers of inputs and outputs in %s" % cfg)
         if reorg and not any(o["op"] == "unwind" and o["evict"] and o["target"] == "commit" for s in got for o in s["ops"]):
             raise vlib.ToolError("vacuity: the commitment is never reorganised out (claims forgotten) in %s" % cfg)
@@ -847,8 +849,8 @@ def run_check(pid, tier, seed, assumptions):
         allst["max_unwind_depth"] = max(stats[b]["max_unwind_depth"] for b in stats)
         if allst["justice_reissues_in_last_15_blocks"] < 60 or allst["claims_raised_on_rebroadcast"] < 5:
             vacuous("vacuity: too few justice claims re-issued near the CSV expiry / raised on a rebroadcast request: %s" % allst)
-        if allst["second_stage_inputs_ne_outputs"] < 25 or allst["second_stage_aggregated"] < 20 or allst["second_stage_own_input_before_htlc"] < 15 \
-                or allst["second_stage_extra_outputs"] < 10:
+        if allst["second_stage_inputs_ne_outputs"] < 30 or allst["second_stage_aggregated"] < 12 or allst["second_stage_own_input_before_htlc"] < 12 \
+                or allst["second_stage_extra_outputs"] < 8:
             vacuous("vacuity: too few hand-made second-stage transactions of the unusual shapes confirmed: %s" % allst)
         if allst["unwinds_of_commitment"] < 50 or allst["unwinds_forgetting_claims"] < 30 or allst["commitment_reconfirmed"] < 50 \
                 or allst["commitment_reconfirmed_other_height"] < 15 or allst["unwinds_of_second_stage"] < 8 \
